@@ -24,12 +24,14 @@ ASSUMPTIONS = TRUSTED
 E2E = {"quick": 4, "thorough": 60, "on_doubt": 4, "cli": True}
 
 DENY = {"socket", "ssl", "http", "urllib", "urllib3", "ftplib", "smtplib", "poplib", "imaplib", "telnetlib", "xmlrpc", "asyncio", "selectors", "requests", "httpx", "aiohttp",
-        "websocket", "websockets", "paramiko", "subprocess", "multiprocessing", "pty", "ctypes", "socketserver", "webbrowser", "platform", "nntplib", "cgi", "wsgiref", "pexpect",
-        "concurrent", "signal", "mmap", "shutil", "tempfile", "pickle", "shelve", "dbm", "sqlite3"}
+        "websocket", "websockets", "paramiko", "subprocess", "multiprocessing", "pty", "socketserver", "webbrowser", "nntplib", "cgi", "wsgiref", "pexpect"}
+# modules that are not network / process facilities in themselves but whose use can shell out or write elsewhere: an import is an open question, settled by the audit-hook runs
+SUSPECT = {"ctypes", "platform", "concurrent", "signal", "mmap", "shutil", "tempfile", "pickle", "shelve", "dbm", "sqlite3"}
 ALLOW = {"rp2", "typing", "datetime", "pathlib", "logging", "enum", "os", "sys", "prezzemolo", "ezodf", "dataclasses", "jsonschema", "json", "decimal", "configparser", "babel", "argparse",
          "types", "threading", "pycountry", "pkgutil", "itertools", "inspect", "importlib", "heapq", "gettext", "functools", "dateutil", "copy", "cProfile", "abc", "re", "math", "collections", "_decimal"}
 BAD_CALLS = {"os.system", "os.popen", "os.fork", "os.forkpty", "os.startfile", "eval", "exec", "compile", "__import__", "os.posix_spawn", "os.posix_spawnp"}
-BAD_PREFIX = ("os.spawn", "os.exec", "subprocess.", "platform.", "webbrowser.", "socket.", "urllib.", "http.", "shutil.", "tempfile.", "pstats.", "cProfile.run(")
+BAD_PREFIX = ("os.spawn", "os.exec", "subprocess.", "webbrowser.", "socket.", "urllib.", "http.")
+SUSPECT_PREFIX = ("platform.", "shutil.", "tempfile.", "pstats.", "cProfile.run(", "find_library", "ctypes.")
 WRITE_ATTRS = {"unlink", "mkdir", "write_text", "write_bytes", "rename", "replace", "touch", "rmdir", "save", "dump_stats", "symlink_to", "chmod", "makedirs", "remove", "rmtree"}
 
 
@@ -57,6 +59,9 @@ def process_calls(pr):
             if d in BAD_CALLS or d.startswith(BAD_PREFIX):
                 bad.append(f"{d}:{c.lineno}")
         out.append(A.bvc(f"{m.name}/<module>", "effect", "no_process_spawn_eval_or_shelling_call", not bad, m.relpath, "; ".join(bad)))
+        sus = [f"{A.dotted(c.func)}:{c.lineno}" for c in A.calls(m) if any(x in A.dotted(c.func) for x in SUSPECT_PREFIX)]
+        out.append(A.bvc(f"{m.name}/<module>", "effect", "no_call_that_may_shell_out_or_write_elsewhere", not sus, m.relpath,
+                         "; ".join(sus) + " (not a violation in itself: settled by the audit-hook runs)"))
     return out
 
 
